@@ -68,7 +68,7 @@ func c08Gen(r *driver.Rand, thorough bool) *driver.Plan {
 		total += n
 		senders = append(senders, elems(i, n))
 	}
-	if r.Chance(1, 100) {
+	if r.Chance(1, 60) {
 		// a backlog of hundreds of values (queue growth and shrink thresholds,
 		// chunk boundaries)
 		senders = [][]int{elems(0, driver.Pick(r, 260, 300, 600, 64, 128, 256, 512, 1024))}
@@ -85,15 +85,19 @@ func c08Gen(r *driver.Rand, thorough bool) *driver.Plan {
 			p.Producers[i].DelaysMs = []int{0, 0, driver.Pick(r, 5, 20), 0}
 		}
 	}
-	if r.Chance(1, 3) || total > 200 {
+	if r.Chance(1, 3) || total >= 64 {
 		for i := range p.Consumers {
 			p.Consumers[i].StartMs = driver.Pick(r, 5, 30, 100, 1500, 61000)
 		}
 	}
-	if total > 200 && r.Chance(1, 2) {
+	if total >= 64 && len(senders) == 1 && r.Chance(2, 3) {
 		// drain to empty, then refill
 		p.Producers[0].DelaysMs = nil
 		p.SetX("refill", 1)
+		if r.Chance(1, 2) && total > 64 {
+			// the backlog that drains to empty is a whole number of 64-value blocks
+			p.SetX("refill_at", min(total-1, 64*(1+r.Intn(total/64))))
+		}
 	}
 	for i := range p.Consumers {
 		switch r.Intn(8) {
@@ -207,7 +211,11 @@ func c08Build(e *driver.Env) {
 				e.Fault("producer_stall")
 			}
 			for i, v := range p.Senders[si] {
-				if p.X("refill") == 1 && i == len(p.Senders[si])*2/3 {
+				at := len(p.Senders[si]) * 2 / 3
+				if x := p.X("refill_at"); x > 0 {
+					at = x
+				}
+				if p.X("refill") == 1 && i == at {
 					// let the receiver drain the backlog to empty, then refill
 					simrt.Sleep(name+".pause", 100*time.Second)
 					e.Fault("producer_stall")
